@@ -386,7 +386,7 @@ impl Exec {
             Op::Put { k, w, ttl } => {
                 let key = *k;
                 // will this put need eviction? then read the estimates the decision must be based on
-                let weight = match w { Some(sel) => sel.resolve(self.cfg.max_weight), None => self.cfg.weight_fn(key as u64, ttl.is_some()) };
+                let weight = match w { Some(sel) => sel.resolve(self.cfg.max_weight), None => self.cfg.weight_fn(key as u64, self.peek_token(key), ttl.is_some()) };
                 let needs_eviction = !self.model.held.contains_key(k) && weight <= self.cfg.max_weight && weight as i128 > self.model.free();
                 let estimates = if needs_eviction { Some(self.pre_read_estimates(key)?) } else { None };
                 if let Some(pending) = self.issue_put(*k, w, ttl)? {
